@@ -3932,6 +3932,36 @@ fn main() {
             println!("appended_len={}", c2.len());
             println!("appended_ok={}", c2 == [vec![b'o'; 10], vec![b'n'; 5]].concat());
         }
+        // reopen_listing_fault : a database with 20 unflushed writes in its log is closed and reopened while listing the log directory
+        // fails: the open has to fail (and a later fault-free open has to find every write) - or every write has to be readable
+        "reopen_listing_fault" => {
+            use raindb::{ReadOptions, WriteOptions};
+            let fs = rdbv::faultfs::FaultFs::new();
+            let mk = |fs: &rdbv::faultfs::FaultFs| { let mut o = raindb::DbOptions::with_memory_env(); o.filesystem_provider = std::sync::Arc::new(fs.clone()); o.db_path = "db".to_string(); o.create_if_missing = true; o };
+            let keys: Vec<Vec<u8>> = (0..20u32).map(|i| format!("k{:02}", i).into_bytes()).collect();
+            {
+                let db = raindb::DB::open(mk(&fs)).expect("open");
+                for k in &keys { db.put(WriteOptions::default(), k.clone(), b"v".to_vec()).unwrap(); }
+            }
+            fs.fail_list("wal");
+            let mut lost = 0;
+            match raindb::DB::open(mk(&fs)) {
+                Ok(db) => {
+                    println!("open=ok");
+                    lost = keys.iter().filter(|k| db.get(ReadOptions::default(), k).is_err()).count();
+                    db.put(WriteOptions::default(), b"later".to_vec(), b"x".to_vec()).unwrap();
+                    let _ = db.flush_for_verif();
+                }
+                Err(e) => println!("open=err {:?}", e),
+            }
+            fs.fail_list("");
+            match raindb::DB::open(mk(&fs)) {
+                Ok(db) => lost += keys.iter().filter(|k| db.get(ReadOptions::default(), k).is_err()).count(),
+                Err(e) => { println!("second_open=err {:?}", e); lost += keys.len(); }
+            }
+            println!("keys={}", keys.len());
+            println!("lost={}", lost);
+        }
         // manifest_codec : edits of trivial moves (file n deleted at level L, added at level L + 1) and a mixed edit are encoded
         // and decoded by the real codec
         "manifest_codec" => {
